@@ -161,7 +161,9 @@ theorem c20_one_stream (st0 : IpcHub.Registry.State) (hw : IpcHub.Registry.WF st
 /-- the lock assumed by `c20_one_stream` is the one in the source -/
 theorem c20_one_stream_lock_fact :
     IpcHub.Gen.pullRegistLocked = true ∧
-    IpcHub.Gen.getOrCreateCallsC20 = ["Get", "utils.CanonicalPath", "route.Match", "psf.Can", "psf.Create", "runZeroConsumersCloseTask"] := by decide
+    IpcHub.Gen.getOrCreateCallsC20 = ["Get", "utils.CanonicalPath", "route.Match", "psf.Can", "psf.Create", "runZeroConsumersCloseTask"] ∧
+    IpcHub.Gen.getOrCreateTaskGuardC20 = ["r != nil", "psf.Can(r.URL)", "err == nil", "!r.KeepAlive"] ∧
+    IpcHub.Gen.getOrCreateTaskArgs = "s, StreamNoConsumer" := by decide
 
 /-- Why the facts are needed — the behaviours of the code before the fixes, as theorems about the
     model with the old facts (witnesses: corpus/C20/handshake-silence.case, open-panic.case): without
